@@ -166,6 +166,25 @@ def _touch_record(rec, sink):
                  [(k, v) for k, v in hs], rec.checksum))
 
 
+def _crc_answer(batch):
+    try:
+        return bool(batch.validate_crc())
+    except Exception as e:
+        return "exc:" + type(e).__name__
+
+
+def _lifetime_probe(batch, drop, b):
+    """validate_crc() before and after the caller dropped its own references to the source buffer (drop()): the
+    batch reads from memory it owns, so the answer cannot change."""
+    import gc
+    before = _crc_answer(batch)
+    drop()
+    gc.collect()
+    after = _crc_answer(batch)
+    if before != after:
+        b["lifetime"] = [before, after]
+
+
 def _drive_batch(impl, batch, b, data, with_crc, sink):
     """What the fetcher does with one batch.  Returns nothing; fills b."""
     if with_crc:
@@ -231,8 +250,12 @@ def _drive_fetch(impl, data, with_crc):
     r = {"nb": 0, "nrec": 0}
     batches = []
     sink = []
+    batch = None
+    mr = None
+    # a buffer object of its own: only `own`, the MemoryRecords and the batches made from it refer to it
+    own = bytes(bytearray(data))
     try:
-        mr = impl.MR(data)
+        mr = impl.MR(own)
         mr.size_in_bytes()
         maxb = len(data) // 12 + 2
         while mr.has_next():
@@ -246,11 +269,21 @@ def _drive_fetch(impl, data, with_crc):
             b["cls"] = "D" if isinstance(batch, impl.Default) else (
                 "L" if isinstance(batch, impl.Legacy) else type(batch).__name__)
             _drive_batch(impl, batch, b, data, with_crc, sink)
-            batch = None
+            if mr.has_next():
+                batch = None
     except BaseException as e:  # noqa: B036 - we classify everything, incl. non-Exception
         r["exc"] = _exc_info(e)
         r["exc"]["batch"] = r["nb"] - 1
         e = None
+    if batch is not None and not with_crc:
+        # buffer lifetime: the last batch (fully iterated, or abandoned when it raised half way through
+        # decompression) outlives the MemoryRecords and the caller's reference to the fetched bytes
+        holder = {"mr": mr, "own": own}
+        mr = None
+        own = None
+        lb = batches[-1] if batches else {}
+        _lifetime_probe(batch, holder.clear, lb)
+    batch = None
     r["batches"] = batches
     r["nrec"] = sum(b.get("n", 0) for b in batches)
     r["dig"] = _digest(sink)
@@ -262,18 +295,29 @@ def _drive_direct(impl, data, mode, with_crc):
     b = {}
     sink = []
     try:
+        # the batch is built on a buffer object that only this function and the batch refer to
         if mode > MODE_XDIRECT:
             import array
             mode -= MODE_XDIRECT
-            data = array.array("B", data)
+            own = array.array("B", data)
+        else:
+            own = bytearray(data)
         if mode == MODE_DIRECT_V2:
-            batch = impl.Default(data)
+            batch = impl.Default(own)
             b["cls"] = "D"
         else:
-            batch = impl.Legacy(data, 0 if mode == MODE_DIRECT_V0 else 1)
+            batch = impl.Legacy(own, 0 if mode == MODE_DIRECT_V0 else 1)
             b["cls"] = "L"
         r["nb"] = 1
-        _drive_batch(impl, batch, b, data, with_crc, sink)
+        try:
+            _drive_batch(impl, batch, b, own, with_crc, sink)
+        finally:
+            if not with_crc:
+                # buffer lifetime: once the caller drops its reference the batch must still own what it reads
+                # (whether iteration succeeded or raised half way through decompression)
+                holder = {"own": own}
+                own = None
+                _lifetime_probe(batch, holder.clear, b)
         batch = None
     except BaseException as e:  # noqa: B036
         r["exc"] = _exc_info(e)
@@ -526,7 +570,10 @@ class Worker:
                 "print_legend=0:malloc_context_size=0:handle_abort=1:handle_segv=1:"
                 "handle_sigbus=1:handle_sigfpe=1:handle_sigill=1:print_summary=1:"
                 "max_allocation_size_mb=2048:detect_odr_violation=0:"
-                "quarantine_size_mb=4:thread_local_quarantine_size_kb=256")
+                "quarantine_size_mb=4:thread_local_quarantine_size_kb=256:"
+                # freed memory is overwritten: a batch that keeps reading a buffer it no longer owns through an
+                # uninstrumented routine (zlib's crc32) at least answers differently afterwards (_lifetime_probe)
+                "max_free_fill_size=1048576:free_fill_byte=189")
             if sym:
                 env["ASAN_SYMBOLIZER_PATH"] = sym
             env.pop("AIOKAFKA_NO_EXTENSIONS", None)
